@@ -3,7 +3,7 @@
 //	(a) keys of the default symbol table stdlib.Symbols, for the files the installed toolchain selects on
 //	    this host (go/build with its release tags), with path.Dir / path.Base as Interpreter.Use computes them;
 //	    keys of the gated sets stdlib/unrestricted, stdlib/unsafe, stdlib/syscall;
-//	(b) for the packages os, log, fmt, flag: every name with the Go expression it is bound to;
+//	(b) for the packages os, log, fmt, flag, log/slog: every name with the Go expression it is bound to;
 //	    for the whole table: the host functions whose results mention log.Logger (go/types);
 //	(c) stdlib/restricted.go: every function and method with its results and what it calls;
 //	(d) interp/use.go fixStdlib: every p["Name"] = … with its package, guards and free identifiers, the locals;
@@ -433,6 +433,21 @@ type rebind struct {
 	pkg, name string
 	guards    []string
 	free      []string
+	shape     string // Lean term of type RebindShape
+}
+
+type localAssign struct {
+	guards []string
+	expr   string
+	free   []string
+}
+
+type localDef struct {
+	name    string
+	pkg     string // the section of fixStdlib (binPkg key) the local is declared in
+	expr    string // the defining expression as written
+	free    []string
+	assigns []localAssign // later `name = expr` statements with their guards
 }
 
 func binPkgKey(e ast.Expr) (string, bool) {
@@ -451,6 +466,116 @@ func binPkgKey(e ast.Expr) (string, bool) {
 	return s, err == nil
 }
 
+func stringLit(e ast.Expr) (string, bool) {
+	b, ok := e.(*ast.BasicLit)
+	if !ok || b.Kind != token.STRING {
+		return "", false
+	}
+	s, err := strconv.Unquote(b.Value)
+	return s, err == nil
+}
+
+// rebindShape recognises the forms of an assigned expression whose meaning the model reads (everything else is
+// `.expr`: only the free identifiers are known). env maps the variable of an enclosing `range []string{…}` to the
+// current element.
+//
+//	X.MethodByName("M")                                                        .method "X" "M"
+//	reflect.MakeFunc(T, func(…) []reflect.Value { return []reflect.Value{X} })  .constFn "X"
+//	reflect.ValueOf(func(a, b T) R { if b == A { b = B } …; return F(a, b) })   .remap F [(A, B), …]
+func rebindShape(e ast.Expr, env map[string]string) string {
+	c, ok := e.(*ast.CallExpr)
+	if !ok {
+		return ".expr"
+	}
+	fn, _ := chain(c.Fun)
+	if strings.HasSuffix(fn, ".MethodByName") && len(c.Args) == 1 && strings.Count(fn, ".") == 1 {
+		recv := strings.TrimSuffix(fn, ".MethodByName")
+		if m, ok := stringLit(c.Args[0]); ok {
+			return fmt.Sprintf(".method %s %s", q(recv), q(m))
+		}
+		if id, ok := c.Args[0].(*ast.Ident); ok {
+			if m, ok := env[id.Name]; ok {
+				return fmt.Sprintf(".method %s %s", q(recv), q(m))
+			}
+		}
+		return ".expr"
+	}
+	if fn == "reflect.MakeFunc" && len(c.Args) == 2 {
+		if fl, ok := c.Args[1].(*ast.FuncLit); ok && len(fl.Body.List) == 1 {
+			if rs, ok := fl.Body.List[0].(*ast.ReturnStmt); ok && len(rs.Results) == 1 {
+				if cl, ok := rs.Results[0].(*ast.CompositeLit); ok && exprString(cl.Type) == "[]reflect.Value" && len(cl.Elts) == 1 {
+					if id, ok := cl.Elts[0].(*ast.Ident); ok {
+						return ".constFn " + q(id.Name)
+					}
+				}
+			}
+		}
+		return ".expr"
+	}
+	if fn == "reflect.ValueOf" && len(c.Args) == 1 {
+		fl, ok := c.Args[0].(*ast.FuncLit)
+		if !ok || len(fl.Body.List) < 2 {
+			return ".expr"
+		}
+		var params []string
+		for _, f := range fl.Type.Params.List {
+			for _, nm := range f.Names {
+				params = append(params, nm.Name)
+			}
+		}
+		isParam := func(s string) bool {
+			for _, p := range params {
+				if p == s {
+					return true
+				}
+			}
+			return false
+		}
+		var maps []string
+		n := len(fl.Body.List)
+		for _, st := range fl.Body.List[:n-1] {
+			is, ok := st.(*ast.IfStmt)
+			if !ok || is.Init != nil || is.Else != nil {
+				return ".expr"
+			}
+			be, ok := is.Cond.(*ast.BinaryExpr)
+			if !ok || be.Op != token.EQL {
+				return ".expr"
+			}
+			lhs, rhs, ok := singleAssign(is.Body)
+			if !ok {
+				return ".expr"
+			}
+			v, ok1 := be.X.(*ast.Ident)
+			a, ok2 := chain(be.Y)
+			b, ok3 := chain(rhs)
+			if !ok1 || !ok2 || !ok3 || !isParam(v.Name) || exprString(lhs) != v.Name {
+				return ".expr"
+			}
+			maps = append(maps, fmt.Sprintf("(%s, %s)", leanIdent(a), leanIdent(b)))
+		}
+		rs, ok := fl.Body.List[n-1].(*ast.ReturnStmt)
+		if !ok || len(rs.Results) != 1 {
+			return ".expr"
+		}
+		rc, ok := rs.Results[0].(*ast.CallExpr)
+		if !ok || len(rc.Args) != len(params) {
+			return ".expr"
+		}
+		for i, a := range rc.Args {
+			if id, ok := a.(*ast.Ident); !ok || id.Name != params[i] {
+				return ".expr"
+			}
+		}
+		callee, ok := chain(rc.Fun)
+		if !ok {
+			return ".expr"
+		}
+		return fmt.Sprintf(".remap %s [%s]", q(callee), strings.Join(maps, ", "))
+	}
+	return ".expr"
+}
+
 func fixStdlibFacts(repo string) (rebinds string, locals string, err error) {
 	_, f, err := common.ParseFile(repo, "interp/use.go")
 	if err != nil {
@@ -458,29 +583,50 @@ func fixStdlibFacts(repo string) (rebinds string, locals string, err error) {
 	}
 	fd := common.FindFunc(f, "", "fixStdlib")
 	if fd == nil {
-		return `[⟨"unrecognised: fixStdlib not found", "", [], []⟩]`, "[]", nil
+		return `[⟨"unrecognised: fixStdlib not found", "", [], [], .expr⟩]`, "[]", nil
 	}
 	var rb []rebind
 	var localNames []string
-	localFree := map[string][]string{}
-	addLocal := func(name string, ids []string) {
-		if _, ok := localFree[name]; !ok {
-			localNames = append(localNames, name)
-		}
+	localOf := map[string]*localDef{}
+	addFree := func(l *localDef, ids []string) {
 		for _, id := range ids {
 			dup := false
-			for _, o := range localFree[name] {
+			for _, o := range l.free {
 				if o == id {
 					dup = true
 				}
 			}
 			if !dup {
-				localFree[name] = append(localFree[name], id)
+				l.free = append(l.free, id)
 			}
 		}
 	}
-	var walk func(stmts []ast.Stmt, pkg string, guards []string, inline []string)
-	walk = func(stmts []ast.Stmt, pkg string, guards []string, inline []string) {
+	declLocal := func(name, pkg string, e ast.Expr) {
+		l, ok := localOf[name]
+		if !ok {
+			l = &localDef{name: name, pkg: pkg, expr: exprString(e)}
+			localOf[name] = l
+			localNames = append(localNames, name)
+		} else {
+			// a second `:=` of the same name (another scope): both definitions count
+			l.expr += " | " + exprString(e)
+		}
+		addFree(l, freeIdents(e, true))
+	}
+	without := func(ids []string, env map[string]string) []string {
+		var out []string
+		for _, id := range ids {
+			if _, ok := env[strings.Split(id, ".")[0]]; !ok {
+				out = append(out, id)
+			}
+		}
+		return out
+	}
+	var walk func(stmts []ast.Stmt, pkg string, guards []string, inline []string, env map[string]string)
+	walk = func(stmts []ast.Stmt, pkg string, guards []string, inline []string, env map[string]string) {
+		unrec := func(st ast.Node) {
+			rb = append(rb, rebind{pkg, "unrecognised: " + short(exprString(st)), append([]string(nil), guards...), nil, ".expr"})
+		}
 		for _, st := range stmts {
 			switch s := st.(type) {
 			case *ast.AssignStmt:
@@ -494,12 +640,16 @@ func fixStdlibFacts(repo string) (rebinds string, locals string, err error) {
 					if ix, ok := s.Lhs[0].(*ast.IndexExpr); ok {
 						if id, ok := ix.X.(*ast.Ident); ok && id.Name == "p" {
 							name := "unrecognised: " + exprString(ix.Index)
-							if b, ok := ix.Index.(*ast.BasicLit); ok {
-								name, _ = strconv.Unquote(b.Value)
+							if n, ok := stringLit(ix.Index); ok {
+								name = n
+							} else if v, ok := ix.Index.(*ast.Ident); ok {
+								if n, ok := env[v.Name]; ok {
+									name = n
+								}
 							}
-							free := freeIdents(s.Rhs[0], true)
+							free := without(freeIdents(s.Rhs[0], true), env)
 							free = append(free, inline...)
-							rb = append(rb, rebind{pkg, name, append([]string(nil), guards...), free})
+							rb = append(rb, rebind{pkg, name, append([]string(nil), guards...), free, rebindShape(s.Rhs[0], env)})
 							continue
 						}
 						continue // interp.mapTypes[…] = …
@@ -512,25 +662,79 @@ func fixStdlibFacts(repo string) (rebinds string, locals string, err error) {
 							continue
 						}
 						if len(s.Rhs) == len(s.Lhs) {
-							addLocal(id.Name, freeIdents(s.Rhs[i], true))
+							declLocal(id.Name, pkg, s.Rhs[i])
 						} else {
-							addLocal(id.Name, freeIdents(s.Rhs[0], true))
+							declLocal(id.Name, pkg, s.Rhs[0])
 						}
 					}
+					continue
 				}
+				// name = expr : a later assignment to a local, under the current guards
+				if s.Tok == token.ASSIGN && len(s.Lhs) == len(s.Rhs) {
+					for i, l := range s.Lhs {
+						id, ok := l.(*ast.Ident)
+						if !ok {
+							unrec(st)
+							continue
+						}
+						ld, ok := localOf[id.Name]
+						if !ok {
+							unrec(st)
+							continue
+						}
+						fr := freeIdents(s.Rhs[i], true)
+						ld.assigns = append(ld.assigns, localAssign{append([]string(nil), guards...), exprString(s.Rhs[i]), fr})
+						addFree(ld, fr)
+					}
+					continue
+				}
+				unrec(st)
 			case *ast.ExprStmt:
 				// c.SetOutput(stderr): configuration of a local
 				if c, ok := s.X.(*ast.CallExpr); ok {
 					if fn, ok := chain(c.Fun); ok {
 						root := strings.Split(fn, ".")[0]
-						if _, isLocal := localFree[root]; isLocal {
+						if ld, isLocal := localOf[root]; isLocal {
 							var ids []string
 							for _, a := range c.Args {
 								ids = append(ids, freeIdents(a, true)...)
 							}
-							addLocal(root, ids)
+							addFree(ld, ids)
 						}
 					}
+				}
+			case *ast.RangeStmt:
+				// for _, name := range []string{"A", "B"} { p[name] = … }: one pass over the body per element
+				v, okv := s.Value.(*ast.Ident)
+				cl, okc := s.X.(*ast.CompositeLit)
+				keyOK := s.Key == nil
+				if k, ok := s.Key.(*ast.Ident); ok && k.Name == "_" {
+					keyOK = true
+				}
+				if !okv || !okc || !keyOK || s.Tok != token.DEFINE || exprString(cl.Type) != "[]string" {
+					unrec(st)
+					continue
+				}
+				var elems []string
+				good := true
+				for _, el := range cl.Elts {
+					n, ok := stringLit(el)
+					if !ok {
+						good = false
+					}
+					elems = append(elems, n)
+				}
+				if !good {
+					unrec(st)
+					continue
+				}
+				for _, n := range elems {
+					e2 := map[string]string{}
+					for k, x := range env {
+						e2[k] = x
+					}
+					e2[v.Name] = n
+					walk(s.Body.List, pkg, guards, inline, e2)
 				}
 			case *ast.IfStmt:
 				g := guards
@@ -554,27 +758,35 @@ func fixStdlibFacts(repo string) (rebinds string, locals string, err error) {
 					}
 					g = append(append([]string(nil), guards...), c)
 				}
-				walk(s.Body.List, p, g, inl)
+				walk(s.Body.List, p, g, inl, env)
 				if s.Else != nil {
 					neg := append(append([]string(nil), guards...), "!("+exprString(s.Cond)+")")
 					switch e := s.Else.(type) {
 					case *ast.BlockStmt:
-						walk(e.List, pkg, neg, inline)
+						walk(e.List, pkg, neg, inline, env)
 					case *ast.IfStmt:
-						walk([]ast.Stmt{e}, pkg, neg, inline)
+						walk([]ast.Stmt{e}, pkg, neg, inline, env)
 					}
 				}
+			default:
+				unrec(st)
 			}
 		}
 	}
-	walk(fd.Body.List, "", nil, nil)
+	// the first statement `p := interp.binPkg["fmt"]` opens the fmt section
+	walk(fd.Body.List, "", nil, nil, map[string]string{})
 	var items []string
 	for _, r := range rb {
-		items = append(items, fmt.Sprintf("⟨%s, %s, %s, %s⟩", q(r.pkg), q(r.name), common.LeanStrList(r.guards), leanIdents(r.free)))
+		items = append(items, fmt.Sprintf("⟨%s, %s, %s, %s, %s⟩", q(r.pkg), q(r.name), common.LeanStrList(r.guards), leanIdents(r.free), r.shape))
 	}
 	var ls []string
 	for _, n := range localNames {
-		ls = append(ls, fmt.Sprintf("⟨%s, %s⟩", q(n), leanIdents(localFree[n])))
+		l := localOf[n]
+		var as []string
+		for _, a := range l.assigns {
+			as = append(as, fmt.Sprintf("⟨%s, %s, %s⟩", common.LeanStrList(a.guards), q(a.expr), leanIdents(a.free)))
+		}
+		ls = append(ls, fmt.Sprintf("⟨%s, %s, %s, %s, [%s]⟩", q(n), leanIdents(l.free), q(l.pkg), q(l.expr), strings.Join(as, ", ")))
 	}
 	return "[" + strings.Join(items, ",\n   ") + "]", "[" + strings.Join(ls, ",\n   ") + "]", nil
 }
@@ -1127,8 +1339,8 @@ func main() {
 			gated = append(gated, fmt.Sprintf("(%s, %s)", q(set), leanKeys(sortedKeys(ts), "     ")))
 		}
 		var tl []string
-		for _, p := range []string{"os", "log", "fmt", "flag"} {
-			tl = append(tl, leanTable(tabs[p+"/"+p], p))
+		for _, p := range []string{"os", "log", "fmt", "flag", "log/slog"} {
+			tl = append(tl, leanTable(tabs[p+"/"+path.Base(p)], p))
 		}
 		decls, err := declsOf(repo)
 		if err != nil {
@@ -1168,7 +1380,7 @@ def defaultKeys : List Key :=
 def gated : List (String × List Key) :=
   [%s]
 
-/-- stdlib/go1_2x_{os,log,fmt,flag}.go -/
+/-- stdlib/go1_2x_{os,log,fmt,flag,log_slog}.go -/
 def tables : List PkgTable := [
 %s]
 
